@@ -423,6 +423,18 @@ def encoding_ids(repo):
     return {n: i for i, n in enumerate(names)}
 
 
+def source_features(repo):
+    """which of the proposed repairs the current a64assembler.cpp contains (the model transcribes both variants)"""
+    src = (Path(repo) / "asmjit/arm/a64assembler.cpp").read_text()
+    m = re.search(r"EmitOp_MemBaseIndex_Rn5_Rm16:(.*?)goto EmitOp;", src, re.S)
+    if not m:
+        raise TranslateError("EmitOp_MemBaseIndex_Rn5_Rm16 not found")
+    tail = m.group(1)
+    return {"srcIndexTailChecksBase": int("check_mem_base" in tail and "is_pre_or_post" in tail),
+            "srcIndexTailChecksWIndex": int("RegType::kGp32" in tail and "B(13)" in tail),
+            "srcMatchWideNarrow": int("match_wide_narrow" in src)}
+
+
 def render_tables(insts, rows, consts, encids):
     L = ["/- GENERATED by tools/gen_a64.py from the compiled a64instdb.cpp / a64assembler.cpp (harness `dump`) - do not edit -/",
          "namespace AsmjitVerif.Gen.A64Tables", "set_option maxRecDepth 100000", ""]
